@@ -192,7 +192,8 @@ Definition COLON : N := 58%N.
 Definition fmt_istring_item (i : istring_item) (st : fstate) : fstate :=
   match i with
   | IString s => push (display_located s) st
-  | IIdentifierPath p => push [RBRACE] (push (l_data p) (push [LBRACE] st))
+  | IIdentifierPath p =>      (* the trivia in front of the path: emitted iff Gen.FmtRules.emits_interpolation_trivia *)
+      push [RBRACE] ((if emits_interpolation_trivia then fmt_loc p else push (l_data p)) (push [LBRACE] st))
   end.
 Definition fmt_istring (s : istring) (st : fstate) : fstate :=
   push [QUOTE] (fold_left (fun a i => fmt_istring_item i a) (is_items s) (fmt_loc (is_lquote s) st)).
@@ -354,16 +355,14 @@ Definition fmt_lbrace_trivium (t : trivia) (st : fstate) : fstate :=
   end.
 Definition fmt_lbrace_trivia (ot : option (list trivia)) (st : fstate) : fstate :=
   match ot with Some ts => fold_left (fun s t => fmt_lbrace_trivium t s) ts st | None => st end.
-(* `on_new_line`: the last comment of that trivia was a line comment *)
-Definition lbrace_on_new_line (ot : option (list trivia)) : bool :=
-  match ot with
-  | Some ts => fold_left (fun b t => match t with CStyle _ => false | CppStyle _ => true | _ => b end) ts false
-  | None => false
-  end.
-Definition open_block (o : options) (lparen : ltext) (on_new_line : bool) (st : fstate) : fstate :=
+(* `self.chunks.last().map(|c| c.str != "\n").unwrap_or(true)` negated: the newest chunk is a newline chunk *)
+Definition last_is_nl (st : fstate) : bool := match f_chunks st with c :: _ => is_nl_chunk c | [] => false end.
+(* with the brace on a new line it starts a line of its own; since the `{` repair no second line break is pushed when the
+   newest chunk already is one (behind a line comment, or when the trivia of a config value carried the line break) *)
+Definition open_block (o : options) (lparen : ltext) (st : fstate) : fstate :=
   match o_braces o with
   | SameLine => push [NL] (push (l_data lparen) st)
-  | NewLine => push [NL] (push (l_data lparen) (if on_new_line then st else push [NL] st))
+  | NewLine => push [NL] (push (l_data lparen) (if emits_lbrace_trivia && last_is_nl st then st else push [NL] st))
   end.
 Definition indent_by (k : nat) (st : fstate) : fstate := mkF (f_chunks st) (f_spc st) (f_indent st + k).     (* self.indent += k *)
 Definition dedent_by (k : nat) (st : fstate) : fstate := mkF (f_chunks st) (f_spc st) (f_indent st - k).     (* self.indent -= k *)
@@ -444,7 +443,7 @@ with format_block (o : options) (lt : bool) (b : block) (st : fstate) {struct b}
   | mkBlock lparen inner rparen =>
       let emit := lt && emits_lbrace_trivia in
       let st := if emit then fmt_lbrace_trivia (l_trivia lparen) st else st in
-      let st := open_block o lparen (if emit then lbrace_on_new_line (l_trivia lparen) else false) st in
+      let st := open_block o lparen st in
       let st := indent_by (o_indent o) st in
       let st := format_tokens_with (format_token o) (Some (l_trivia rparen)) inner true st in
       let st := dedent_by (o_indent o) st in
